@@ -918,6 +918,12 @@ func (c *Converter) ConvertNotificationTypedValues(ctx context.Context, n *sdcpb
 		Update:    make([]*sdcpb.Update, 0, len(n.GetUpdate())),
 		Delete:    n.GetDelete(),
 	}
+	// the paths of the deletes are spelled like those of the updates
+	for _, del := range n.GetDelete() {
+		if err := c.stripPathPrefixes(ctx, del); err != nil {
+			log.Debugf("delete path %v: %v", del, err)
+		}
+	}
 	// convert typed values to their YANG type
 	for _, upd := range n.GetUpdate() {
 		err := c.stripPathPrefixes(ctx, upd.GetPath())
